@@ -302,3 +302,313 @@ Proof.
   destruct a as [a1 a2], b as [b1 b2]; unfold cid_eqb; cbn. rewrite andb_true_iff, N.eqb_eq, String.eqb_eq.
   split; [intros [-> ->]; reflexivity | intros H; inversion H; auto].
 Qed.
+
+Lemma string_eqb_eq' a b : String.eqb a b = true <-> a = b.
+Proof. apply String.eqb_eq. Qed.
+
+Lemma clos_trans_mono {A} (R S : A -> A -> Prop) :
+  (forall a b, R a b -> S a b) -> forall a b, clos_trans A R a b -> clos_trans A S a b.
+Proof.
+  intros H a b T. induction T as [a b E | a b c _ IH1 _ IH2].
+  - apply t_step; auto.
+  - eapply t_trans; eassumption.
+Qed.
+
+(* ------------------------------------------------------------------ soundness of accept *)
+Definition wedge (w : wf) (u v : cid) : Prop :=
+  exists c, In c (w_comps w) /\ c_id c = v /\ In u (c_refs c).
+
+Definition var_edge (w : wf) (c : comp) (u v : string) : Prop :=
+  exists rs, In (v, rs) (env_of w c) /\ In u rs.
+
+Definition vars_resolvable (w : wf) (c : comp) : Prop :=
+  (forall u, In u (c_uses c) -> In u (map fst (env_of w c))) /\
+  (forall n rs u, In (n, rs) (env_of w c) -> In u rs -> In u (map fst (env_of w c))) /\
+  (forall x, ~ clos_trans string (var_edge w c) x x).
+
+Lemma wedge_graph w : refs_exist w = true -> forall u v, wedge w u v -> edge (graph_of w) u v.
+Proof.
+  intros R u v [c [Hc [Hid Hu]]]. unfold refs_exist in R. rewrite forallb_forall in R.
+  specialize (R _ Hc). rewrite forallb_forall in R. specialize (R _ Hu).
+  exists (filter (fun r => kmem cid_eqb r (ids w)) (c_refs c)). split.
+  - unfold graph_of. apply in_map_iff. exists c. rewrite Hid. split; [reflexivity | assumption].
+  - apply filter_In; split; assumption.
+Qed.
+
+Lemma var_edge_graph w c : vars_defined w c = true -> forall u v, var_edge w c u v -> edge (var_graph w c) u v.
+Proof.
+  intros D u v [rs [H1 H2]]. unfold vars_defined in D. apply andb_prop in D as [_ D].
+  rewrite forallb_forall in D. specialize (D _ H1). cbn in D. rewrite forallb_forall in D. specialize (D _ H2).
+  exists (filter (fun u0 => kmem String.eqb u0 (map fst (env_of w c))) rs). split.
+  - unfold var_graph. apply in_map_iff. exists (v, rs). split; [reflexivity | assumption].
+  - apply filter_In; split; assumption.
+Qed.
+
+Section AcceptProofs.
+  Variable cs : schema.
+
+  Theorem accept_sound w : accept cs w = true ->
+    NoDup (ids w) /\
+    (forall c r, In c (w_comps w) -> In r (c_refs c) -> exists c', In c' (w_comps w) /\ c_id c' = r) /\
+    (forall u, ~ clos_trans cid (wedge w) u u) /\
+    (forall c, In c (w_comps w) -> vars_resolvable w c) /\
+    (forall c, In c (w_comps w) -> hard_errs cs (c_doc c) "" = []).
+  Proof.
+    unfold accept. intros H.
+    apply andb_prop in H as [H _]. apply andb_prop in H as [H Hv]. apply andb_prop in H as [H Hc].
+    apply andb_prop in H as [H Hr]. apply andb_prop in H as [Hs Hu].
+    split; [|split; [|split; [|split]]].
+    - apply (uniq_NoDup cid cid_eqb cid_eqb_eq); assumption.
+    - intros c r Ic Ir. unfold refs_exist in Hr. rewrite forallb_forall in Hr. specialize (Hr _ Ic).
+      rewrite forallb_forall in Hr. specialize (Hr _ Ir). apply (kmem_In cid cid_eqb cid_eqb_eq) in Hr.
+      unfold ids in Hr. apply in_map_iff in Hr as [c' [E I]]. exists c'; split; assumption.
+    - intros u C. apply (acyclic_b_sound cid cid_eqb cid_eqb_eq _ Hc u).
+      eapply clos_trans_mono; [|exact C]. apply wedge_graph; assumption.
+    - intros c Ic. rewrite forallb_forall in Hv. specialize (Hv _ Ic). apply andb_prop in Hv as [D A].
+      pose proof D as D0. unfold vars_defined in D. apply andb_prop in D as [D1 D2].
+      split; [|split].
+      + intros u Iu. rewrite forallb_forall in D1. apply (kmem_In string String.eqb string_eqb_eq'). auto.
+      + intros n rs u I1 I2. rewrite forallb_forall in D2. specialize (D2 _ I1). cbn in D2.
+        rewrite forallb_forall in D2. apply (kmem_In string String.eqb string_eqb_eq'). auto.
+      + intros x C. apply (acyclic_b_sound string String.eqb string_eqb_eq' _ A x).
+        eapply clos_trans_mono; [|exact C]. apply var_edge_graph; assumption.
+    - intros c Ic. rewrite forallb_forall in Hs. specialize (Hs _ Ic). unfold schema_ok in Hs.
+      destruct (hard_errs cs (c_doc c) ""); [reflexivity | discriminate].
+  Qed.
+
+  (* ---------------------------------------------------------------- list surgery *)
+  Lemma upd_nth_In {A} (f : A -> A) : forall i (l : list A) c, nth_error l i = Some c -> In (f c) (upd_nth i f l).
+  Proof.
+    induction i as [|i IH]; intros [|x r] c H; cbn in *; try discriminate.
+    - inversion H; left; reflexivity.
+    - right; apply IH; assumption.
+  Qed.
+
+  Lemma upd_nth_map {A B} (f : A -> A) (g : A -> B) : (forall x, g (f x) = g x) ->
+    forall i l, map g (upd_nth i f l) = map g l.
+  Proof.
+    intros E. induction i as [|i IH]; intros [|x r]; cbn; try reflexivity.
+    - rewrite E; reflexivity.
+    - rewrite IH; reflexivity.
+  Qed.
+
+  Lemma accept_schema_false w c :
+    In c (w_comps w) -> hard_errs cs (c_doc c) "" <> [] -> accept cs w = false.
+  Proof.
+    intros Ic Hh. destruct (accept cs w) eqn:A; [|reflexivity].
+    destruct (accept_sound w A) as [_ [_ [_ [_ S]]]]. specialize (S _ Ic). contradiction.
+  Qed.
+
+  (* UnknownKey / WrongType: the mutated document of component i has a hard schema error *)
+  Lemma complete_unknown_key w i c p k x s' rules m :
+    nth_error (w_comps w) i = Some c ->
+    sub_at p cs = Some s' -> dict_rules s' = Some rules -> pget p (c_doc c) = Some (VDict m) ->
+    find_rule rules k = None ->
+    accept cs (mutate (UnknownKey i p k x) w) = false.
+  Proof.
+    intros Hn Hs D Hg F. cbn [mutate].
+    apply accept_schema_false with (c := set_doc (pput p k x) c).
+    - cbn. apply upd_nth_In; assumption.
+    - cbn. eapply hard_in.
+      + eapply schema_unknown_key; [exact Hs | exact D | apply pget_pput_dict; exact Hg | apply In_pset | exact F].
+      + reflexivity.
+  Qed.
+
+  Lemma complete_wrong_type w i c p k l s' m :
+    nth_error (w_comps w) i = Some c ->
+    sub_at (p ++ [k]) cs = Some s' -> no_list s' = true -> pget p (c_doc c) = Some (VDict m) ->
+    accept cs (mutate (WrongType i p k (VList l)) w) = false.
+  Proof.
+    intros Hn Hs N Hg. cbn [mutate].
+    apply accept_schema_false with (c := set_doc (pput p k (VList l)) c).
+    - cbn. apply upd_nth_In; assumption.
+    - cbn. eapply hard_in.
+      + eapply schema_wrong_type; [exact Hs | exact N | eapply pget_pput_leaf; exact Hg].
+      + reflexivity.
+  Qed.
+
+  Lemma accept_uniq w : accept cs w = true -> uniq cid_eqb (ids w) = true.
+  Proof.
+    unfold accept. intros H. repeat (apply andb_prop in H as [H ?]). assumption.
+  Qed.
+
+  (* DupName: two positions with the same identifier *)
+  Lemma nodup_nth {A} (l : list A) i j x : NoDup l -> nth_error l i = Some x -> nth_error l j = Some x -> i = j.
+  Proof. intros N H1 H2. eapply NoDup_nth_error; eauto. apply nth_error_Some. congruence. congruence. Qed.
+
+  Lemma nth_upd_same {A} (f : A -> A) : forall i (l : list A) c, nth_error l i = Some c -> nth_error (upd_nth i f l) i = Some (f c).
+  Proof. induction i as [|i IH]; intros [|x r] c H; cbn in *; try discriminate; [inversion H; reflexivity | auto]. Qed.
+
+  Lemma nth_upd_other {A} (f : A -> A) : forall i j (l : list A), i <> j -> nth_error (upd_nth i f l) j = nth_error l j.
+  Proof.
+    induction i as [|i IH]; intros [|j] [|x r] N; cbn; try reflexivity; try contradiction.
+    apply IH; congruence.
+  Qed.
+
+  Lemma complete_dup_name w i j ci cj :
+    i <> j -> nth_error (w_comps w) i = Some ci -> nth_error (w_comps w) j = Some cj ->
+    accept cs (mutate (DupName i j) w) = false.
+  Proof.
+    intros N Hi Hj. cbn [mutate]. rewrite Hj.
+    destruct (accept cs _) eqn:A; [|reflexivity]. exfalso.
+    apply accept_uniq in A. apply (uniq_NoDup cid cid_eqb cid_eqb_eq) in A. unfold ids in A; cbn in A.
+    apply N. eapply (nodup_nth _ i j (c_id cj) A).
+    - rewrite nth_error_map, (nth_upd_same _ _ _ _ Hi). reflexivity.
+    - rewrite nth_error_map, nth_upd_other by assumption. rewrite Hj; reflexivity.
+  Qed.
+
+  Lemma accept_refs w : accept cs w = true -> refs_exist w = true.
+  Proof.
+    unfold accept. intros H. apply andb_prop in H as [H _]. apply andb_prop in H as [H _].
+    apply andb_prop in H as [H _]. apply andb_prop in H as [_ H]. assumption.
+  Qed.
+
+  (* RenameRef: the j-th reference of component i now names no component *)
+  Lemma complete_rename_ref w i j c r r' :
+    nth_error (w_comps w) i = Some c -> nth_error (c_refs c) j = Some r ->
+    ~ In r' (ids w) ->
+    accept cs (mutate (RenameRef i j r') w) = false.
+  Proof.
+    intros Hi Hj Nr. cbn [mutate].
+    destruct (accept cs _) eqn:A; [|reflexivity]. exfalso.
+    destruct (accept_sound _ A) as [_ [R _]]. cbn in R.
+    destruct (R (set_refs (upd_nth j (fun _ => r')) c) r') as [c' [I E]].
+    - apply upd_nth_In; assumption.
+    - cbn. apply (upd_nth_In (fun _ => r') j (c_refs c) r Hj).
+    - apply Nr. unfold ids.
+      assert (M : map c_id (upd_nth i (set_refs (upd_nth j (fun _ => r'))) (w_comps w)) = map c_id (w_comps w))
+        by (apply upd_nth_map; intros; reflexivity).
+      pose proof (in_map c_id _ _ I) as I2. rewrite M, E in I2. exact I2.
+  Qed.
+
+  (* DropComponent: a consumer of the dropped component remains *)
+  Lemma del_nth_In {A} : forall i (l : list A) x, In x (del_nth i l) -> In x l.
+  Proof.
+    induction i as [|i IH]; intros [|y r] x H; cbn in *; try contradiction; [right; assumption|].
+    destruct H; [left; assumption | right; apply IH; assumption].
+  Qed.
+
+  Lemma del_nth_keeps {A} : forall i j (l : list A) x, i <> j -> nth_error l j = Some x -> In x (del_nth i l).
+  Proof.
+    induction i as [|i IH]; intros [|j] [|y r] x N H; cbn in *; try discriminate; try contradiction.
+    - eapply nth_error_In; eassumption.
+    - inversion H; left; reflexivity.
+    - right. eapply IH; [|eassumption]. congruence.
+  Qed.
+
+  Lemma del_nth_nodup {A} (g : A -> cid) : forall i (l : list A) x,
+    NoDup (map g l) -> nth_error l i = Some x -> ~ In (g x) (map g (del_nth i l)).
+  Proof.
+    induction i as [|i IH]; intros [|y r] x N H; cbn in *; try discriminate.
+    - inversion H; subst. inversion N; assumption.
+    - inversion N as [|? ? N1 N2]; subst. intros [E | I].
+      + apply N1. rewrite E. apply in_map. eapply nth_error_In; eassumption.
+      + eapply IH; eassumption.
+  Qed.
+
+  Lemma complete_drop w i j c d :
+    accept cs w = true -> i <> j ->
+    nth_error (w_comps w) i = Some c -> nth_error (w_comps w) j = Some d -> In (c_id c) (c_refs d) ->
+    accept cs (mutate (DropComponent i) w) = false.
+  Proof.
+    intros A0 N Hi Hj Hr. cbn [mutate].
+    destruct (accept cs (mkWf (w_gvars w) (del_nth i (w_comps w)))) eqn:A; [|reflexivity]. exfalso.
+    destruct (accept_sound _ A0) as [U _].
+    destruct (accept_sound _ A) as [_ [R _]]. cbn in R.
+    destruct (R d (c_id c)) as [c' [I E]].
+    - eapply del_nth_keeps; eassumption.
+    - assumption.
+    - apply (del_nth_nodup c_id i (w_comps w) c U Hi). rewrite <- E. apply in_map; assumption.
+  Qed.
+
+  (* AddBackEdge: the new edge closes a cycle *)
+  Lemma upd_nth_other_In {A} (f : A -> A) : forall i (l : list A) x, In x l -> In x (upd_nth i f l) \/ nth_error l i = Some x.
+  Proof.
+    induction i as [|i IH]; intros [|y r] x H; cbn in *; try contradiction.
+    - destruct H; [right; subst; reflexivity | left; right; assumption].
+    - destruct H; [left; left; assumption|]. destruct (IH r x H); [left; right; assumption | right; assumption].
+  Qed.
+
+  Lemma complete_back_edge w i c r :
+    nth_error (w_comps w) i = Some c ->
+    (r = c_id c \/ clos_trans cid (wedge w) (c_id c) r) ->
+    accept cs (mutate (AddBackEdge i r) w) = false.
+  Proof.
+    intros Hi Hp. cbn [mutate].
+    destruct (accept cs _) eqn:A; [|reflexivity]. exfalso.
+    destruct (accept_sound _ A) as [_ [_ [C _]]].
+    set (w' := mkWf (w_gvars w) (upd_nth i (set_refs (fun l => (l ++ [r])%list)) (w_comps w))) in *.
+    assert (Mono : forall u v, wedge w u v -> wedge w' u v).
+    { intros u v [d [Id [Ed Iu]]].
+      destruct (upd_nth_other_In (set_refs (fun l => (l ++ [r])%list)) i (w_comps w) d Id) as [I | E].
+      - exists d; repeat split; assumption.
+      - exists (set_refs (fun l => (l ++ [r])%list) d). split; [apply upd_nth_In; assumption|].
+        split; [exact Ed | cbn; apply in_or_app; left; assumption]. }
+    assert (New : wedge w' r (c_id c)).
+    { exists (set_refs (fun l => (l ++ [r])%list) c). split; [apply upd_nth_In; assumption|].
+      split; [reflexivity | cbn; apply in_or_app; right; left; reflexivity]. }
+    destruct Hp as [-> | T].
+    - apply (C (c_id c)). apply t_step; assumption.
+    - apply (C (c_id c)). eapply t_trans; [eapply clos_trans_mono; [exact Mono | exact T] | apply t_step; exact New].
+  Qed.
+
+  (* RemoveVar: a component that sees the global variable n (does not define it itself) and mentions it *)
+  Lemma complete_remove_var w n c :
+    In c (w_comps w) -> ~ In n (map fst (c_vars c)) ->
+    (In n (c_uses c) \/ exists v rs, In (v, rs) (env_of (mutate (RemoveVar n) w) c) /\ In n rs) ->
+    accept cs (mutate (RemoveVar n) w) = false.
+  Proof.
+    intros Ic Nl Hu.
+    destruct (accept cs _) eqn:A; [|reflexivity]. exfalso.
+    destruct (accept_sound _ A) as [_ [_ [_ [V _]]]].
+    destruct (V c Ic) as [V1 [V2 _]].
+    assert (Nn : ~ In n (map fst (env_of (mutate (RemoveVar n) w) c))).
+    { unfold env_of; cbn. rewrite map_app. intros I. apply in_app_or in I as [I | I]; [contradiction|].
+      apply in_map_iff in I as [[n' rs] [E I]]. cbn in E; subst n'.
+      apply filter_In in I as [I _]. apply filter_In in I as [_ I]. cbn in I.
+      rewrite String.eqb_refl in I. discriminate. }
+    destruct Hu as [Hu | [v [rs [H1 H2]]]].
+    - apply Nn, V1, Hu.
+    - apply Nn. eapply V2; eassumption.
+  Qed.
+End AcceptProofs.
+
+(* ------------------------------------------------------------------ completeness over the fault constructors *)
+Section Complete.
+  Variable cs : schema.
+
+  Definition applicable (m : fault) (w : wf) : Prop :=
+    match m with
+    | DropComponent i =>            (* the dropped component has a consumer *)
+        exists j c d, i <> j /\ nth_error (w_comps w) i = Some c /\ nth_error (w_comps w) j = Some d /\
+                      In (c_id c) (c_refs d)
+    | RenameRef i j r' =>           (* an existing reference is renamed to an identifier nobody has *)
+        exists c r, nth_error (w_comps w) i = Some c /\ nth_error (c_refs c) j = Some r /\ ~ In r' (ids w)
+    | AddBackEdge i r =>            (* r consumes, directly or not, from component i (or is component i) *)
+        exists c, nth_error (w_comps w) i = Some c /\ (r = c_id c \/ clos_trans cid (wedge w) (c_id c) r)
+    | DupName i j =>
+        i <> j /\ exists ci cj, nth_error (w_comps w) i = Some ci /\ nth_error (w_comps w) j = Some cj
+    | UnknownKey i p k x =>         (* p leads to a dictionary of the schema and of the document; no rule matches k *)
+        exists c s' rules m, nth_error (w_comps w) i = Some c /\ sub_at p cs = Some s' /\
+                             dict_rules s' = Some rules /\ pget p (c_doc c) = Some (VDict m) /\
+                             find_rule rules k = None
+    | WrongType i p k x =>          (* a list where the schema of option p.k admits no list *)
+        exists c s' m l, x = VList l /\ nth_error (w_comps w) i = Some c /\ sub_at (p ++ [k]) cs = Some s' /\
+                         no_list s' = true /\ pget p (c_doc c) = Some (VDict m)
+    | RemoveVar n =>                (* some component sees the global n and mentions it *)
+        exists c, In c (w_comps w) /\ ~ In n (map fst (c_vars c)) /\
+                  (In n (c_uses c) \/ exists v rs, In (v, rs) (env_of (mutate (RemoveVar n) w) c) /\ In n rs)
+    end.
+
+  Theorem complete m w : accept cs w = true -> applicable m w -> accept cs (mutate m w) = false.
+  Proof.
+    intros A H. destruct m; cbn [applicable] in H.
+    - destruct H as [j [c [d [N [Hi [Hj Hr]]]]]]. eapply complete_drop; eassumption.
+    - destruct H as [c [r [Hi [Hj Nr]]]]. eapply complete_rename_ref; eassumption.
+    - destruct H as [c [Hi Hp]]. eapply complete_back_edge; eassumption.
+    - destruct H as [N [ci [cj [Hi Hj]]]]. eapply complete_dup_name; eassumption.
+    - destruct H as [c [s' [rules [m [Hi [Hs [D [Hg F]]]]]]]]. eapply complete_unknown_key; eassumption.
+    - destruct H as [c [s' [m [l [-> [Hi [Hs [N Hg]]]]]]]]. eapply complete_wrong_type; eassumption.
+    - destruct H as [c [Ic [Nl Hu]]]. eapply complete_remove_var; eassumption.
+  Qed.
+End Complete.
